@@ -162,7 +162,17 @@ func init() {
 		os.MkdirAll(base, 0o755)
 		defer os.RemoveAll(base)
 		exe, _ := os.Executable()
+		slow := 0
 		return e.each(func(i int, g *Rng) error {
+			if slow >= 3 {
+				return nil // three cases already ran into timeouts: enough to report, the rest would take minutes
+			}
+			t0 := time.Now()
+			defer func() {
+				if time.Since(t0) > 5*time.Second {
+					slow++
+				}
+			}()
 			ctx := context.Background()
 			transport := []string{"unixfs", "abstract", "tcp", "bridge"}[i%4]
 			log := newDispatchLog()
@@ -244,7 +254,27 @@ func init() {
 					c.flags |= varlink.Oneway
 				}
 				var params interface{}
-				if !g.Chance(1, 15) {
+				if g.Chance(1, 8) {
+					// a call frame, or a reply frame, whose wire length (with the NUL) is at or next to a
+					// multiple of the reader's 4096-byte buffer
+					want := g.Pick3(4096, 8192, 12288) + g.Pick3(-1, 0, 1)
+					flagTxt := ""
+					if more {
+						flagTxt = `,"more":true`
+					}
+					if oneway {
+						flagTxt = `,"oneway":true`
+					}
+					if g.Bool() {
+						head := `{"id":"e2e","acts":[["r",{}]],"pad":"`
+						frame := len(`{"method":"`) + len(c.method) + len(`","parameters":`) + len(head) + len(`"}`) + len(flagTxt) + len(`}`) + 1
+						c.params = head + strings.Repeat("x", want-frame) + `"}`
+					} else {
+						replyFrame := len(`{"parameters":{"pad":"`) + len(`"}}`) + 1
+						c.params = `{"id":"e2e","acts":[["r",{"pad":"` + strings.Repeat("y", want-replyFrame) + `"}]]}`
+					}
+					params = json.RawMessage(c.params)
+				} else if !g.Chance(1, 15) {
 					c.params = g.e2eParams("e2e", more)
 					params = json.RawMessage(c.params)
 				} else {
